@@ -276,10 +276,12 @@ psf_set_stdio (SF_PRIVATE *psf)
 
 		case SFM_READ :
 				psf->file.filedes = 0 ;
+				psf->file.do_not_close_descriptor = 1 ;
 				break ;
 
 		case SFM_WRITE :
 				psf->file.filedes = 1 ;
+				psf->file.do_not_close_descriptor = 1 ;
 				break ;
 
 		default :
